@@ -115,43 +115,50 @@ theorem matchPattern_some (s : Str) (p : Pattern) (h : matchPattern s = some p) 
   · cases h
 
 theorem parseFormat_ok (orig : Str) (sep sep2 : Option Str) (f : Fmt) (h : parseFormat orig sep sep2 = .ok f) :
-    ∃ p hasPlus hasSpace, matchPattern orig = some p ∧
+    ∃ p hasPlus hasSpace found, matchPattern orig = some p ∧
       hasOnce p.flags '+' = .ok hasPlus ∧ hasOnce p.flags ' ' = .ok hasSpace ∧
       hasOnce p.flags '-' = .ok f.left ∧ hasOnce p.flags '#' = .ok f.alt ∧ hasOnce p.flags '0' = .ok f.zeroPad ∧
-      f.plus = (if hasSpace then some ' ' else if hasPlus then some '+' else none) ∧
-      f.letter = p.letter ∧ f.width = p.width ∧ f.prec = p.prec ∧ f.orig = orig := by
+      f.plus = (if hasPlus then some '+' else if hasSpace then some ' ' else none) ∧
+      f.letter = p.letter ∧ f.width = p.width ∧ f.prec = p.prec ∧ f.orig = orig ∧
+      findDelim p.flags delimiters none = .ok found ∧
+      f.ldelim = (match found with | some d => some d | none => if hasSpace then some ' ' else none) ∧
+      p.width.getD 0 ≤ maxFormatNumber ∧ p.prec.getD 0 ≤ maxFormatNumber := by
   unfold parseFormat at h
   cases hm : matchPattern orig with
   | none => rw [hm] at h; cases h
   | some p =>
     rw [hm] at h
     simp only [bind, Except.bind] at h
-    cases h1 : hasOnce p.flags '+' with
-    | error e => rw [h1] at h; cases h
-    | ok hasPlus =>
-      rw [h1] at h; simp only at h
-      cases h2 : hasOnce p.flags ' ' with
-      | error e => rw [h2] at h; cases h
-      | ok hasSpace =>
-        rw [h2] at h; simp only at h
+    cases h2 : hasOnce p.flags ' ' with
+    | error e => rw [h2] at h; cases h
+    | ok hasSpace =>
+      rw [h2] at h; simp only at h
+      cases h1 : hasOnce p.flags '+' with
+      | error e => rw [h1] at h; cases h
+      | ok hasPlus =>
+        rw [h1] at h; simp only at h
         cases h3 : findDelim p.flags delimiters none with
         | error e => rw [h3] at h; cases h
         | ok found =>
           rw [h3] at h; simp only at h
-          cases h4 : hasOnce p.flags '-' with
-          | error e => rw [h4] at h; cases h
-          | ok left =>
-            rw [h4] at h; simp only at h
-            cases h5 : hasOnce p.flags '#' with
-            | error e => rw [h5] at h; cases h
-            | ok alt =>
-              rw [h5] at h; simp only at h
-              cases h6 : hasOnce p.flags '0' with
-              | error e => rw [h6] at h; cases h
-              | ok zp =>
-                rw [h6] at h; simp only [pure, Except.pure] at h
-                cases h
-                exact ⟨p, hasPlus, hasSpace, rfl, h1, h2, h4, h5, h6, rfl, rfl, rfl, rfl, rfl⟩
+          by_cases hnum : (decide (p.width.getD 0 > maxFormatNumber) || decide (p.prec.getD 0 > maxFormatNumber)) = true
+          · rw [if_pos hnum] at h; cases h
+          · rw [if_neg hnum] at h
+            cases h4 : hasOnce p.flags '-' with
+            | error e => rw [h4] at h; cases h
+            | ok left =>
+              rw [h4] at h; simp only at h
+              cases h5 : hasOnce p.flags '#' with
+              | error e => rw [h5] at h; cases h
+              | ok alt =>
+                rw [h5] at h; simp only at h
+                cases h6 : hasOnce p.flags '0' with
+                | error e => rw [h6] at h; cases h
+                | ok zp =>
+                  rw [h6] at h; simp only [pure, Except.pure] at h
+                  cases h
+                  simp only [Bool.or_eq_true, decide_eq_true_eq, not_or, Nat.not_lt] at hnum
+                  exact ⟨p, hasPlus, hasSpace, found, rfl, h1, h2, h4, h5, h6, rfl, rfl, rfl, rfl, rfl, h3, rfl, hnum.1, hnum.2⟩
 
 theorem hasOnce_ok (fl : Str) (c : Char) (b : Bool) (h : hasOnce fl c = .ok b) : b = fl.contains c := by
   unfold hasOnce at h
@@ -196,6 +203,15 @@ theorem NumOK.width {f : Fmt} (h : NumOK f) (w : Nat) (hw : f.width = some w) : 
 theorem NumOK.prec {f : Fmt} (h : NumOK f) (p : Nat) (hp : f.prec = some p) : p / 10 ≤ 1000000 := by
   have := h.2; rw [hp] at this; exact this
 
+/-- `parseFormat` itself rejects numbers beyond fmt's limit -/
+theorem parseFormat_numOK (orig : Str) (sep sep2 : Option Str) (f : Fmt) (h : parseFormat orig sep sep2 = .ok f) :
+    NumOK f := by
+  obtain ⟨p, _, _, _, _, _, _, _, _, _, _, _, hw, hp, _, _, _, h1, h2⟩ := parseFormat_ok orig sep sep2 f h
+  unfold NumOK
+  rw [hw, hp]
+  unfold maxFormatNumber at h1 h2
+  constructor <;> omega
+
 theorem filter_id_of_all {p : Char → Bool} : ∀ (l : Str), (∀ c ∈ l, p c = true) → l.filter p = l
   | [], _ => rfl
   | x :: xs, h => by
@@ -206,7 +222,7 @@ theorem filter_id_of_all {p : Char → Bool} : ∀ (l : Str), (∀ c ∈ l, p c 
     limit), the string handed to fmt parses to the same verb, width, precision and flags -/
 theorem parseFormat_goOK0 (orig : Str) (sep sep2 : Option Str) (f : Fmt) (h : parseFormat orig sep sep2 = .ok f)
     (hn : NumOK f) : GoOK0 f := by
-  obtain ⟨p, hasPlus, hasSpace, hm, hplus, hspace, hleft, halt, hzero, hfplus, hletter, hwidth, hprec, horig⟩ :=
+  obtain ⟨p, hasPlus, hasSpace, _, hm, hplus, hspace, hleft, halt, hzero, hfplus, hletter, hwidth, hprec, horig, _⟩ :=
     parseFormat_ok orig sep sep2 f h
   obtain ⟨rest, hs, hfl, hwd, hlet, htail⟩ := matchPattern_some orig p hm
   -- the pieces of the text
